@@ -122,7 +122,7 @@ where
         let known = obs["v"].clone();
         replay::universal(&mut sink.ctx, inst, p, &obs, &[&known], "parse");
     }
-    sink.emit(json!({"ev": "parse", "sh": sh, "inst": inst, "s": cps(s), "out": obs, "text": text, "lc": lc_table(&[s])}));
+    sink.emit(json!({"ev": "parse", "sh": sh, "inst": inst, "s": cps(s), "out": for_tlc(&obs), "text": text, "lc": lc_table(&[s])}));
 }
 
 fn parse_all(sink: &mut Sink, s: &str) {
@@ -594,8 +594,8 @@ fn drive_builder_ops(sink: &mut Sink, rng: &mut Rng, n: usize) {
             (o, c, back)
         };
         let _ = canon;
-        sink.emit(json!({"ev": "bseq", "sh": if typed { "typed" } else { "generic" }, "ops": ops, "out": out,
-                         "back": back.unwrap_or(json!({"none": true})), "lc": lc_table(&refs)}));
+        sink.emit(json!({"ev": "bseq", "sh": if typed { "typed" } else { "generic" }, "ops": ops, "out": for_tlc(&out),
+                         "back": back.map(|b| for_tlc(&b)).unwrap_or(json!({"none": true})), "lc": lc_table(&refs)}));
     }
 }
 
@@ -751,7 +751,7 @@ fn drive_combined(sink: &mut Sink, rng: &mut Rng, n: usize) {
                 },
                 Err(_) => (json!({"some": false}), json!({})),
             };
-            (split, outcome::<PackageType, purl::PackageError>(Ok(built)), joined, inverse)
+            (split, for_tlc(&outcome::<PackageType, purl::PackageError>(Ok(built))), joined, inverse)
         }));
         match r {
             Err(_) => sink.emit(json!({"ev": "comb", "t": cps(tn), "s": cps(&s), "panic": true})),
